@@ -692,7 +692,9 @@ func checkValue(v tengo.Object) {
 		res.Dist("enc:member-order-unreadable")
 	}
 	ask("enc", lib.L("json-enc", ordered, floatOracleEnc(fl)), "ok "+lib.Hex(text), in)
-	res.Sample(map[string]interface{}{"stream": "enc", "value": clip(sorted, 300), "text": clip(string(text), 300)}, 4)
+	if f.escapes && f.nested && f.floats {
+		res.Sample(map[string]interface{}{"stream": "enc", "value": clip(sorted, 300), "text": clip(string(text), 300)}, 3)
+	}
 	if f.invalid {
 		// outside the property's quantifier (not JSON-representable); correspondence of decode only
 		checkBytes(text, false, "encoded-invalid-utf8")
@@ -786,8 +788,8 @@ func checkBytes(b []byte, count bool, origin string) {
 	if drv != nil {
 		queueDec(b, want, in)
 	}
-	if count {
-		res.Sample(map[string]interface{}{"stream": "dec", "bytes": clip(string(b), 120), "outcome": clip(want, 200)}, 8)
+	if count && len(b) > 12 && origin != "corpus" {
+		res.Sample(map[string]interface{}{"stream": "dec", "origin": origin, "bytes": clip(string(b), 120), "outcome": clip(want, 200)}, 8)
 	}
 }
 
@@ -1108,6 +1110,7 @@ func checkModule(v tengo.Object, inp []byte) {
 // ---------------------------------------------------------------- fixed corpus
 
 var corpusTexts = []string{
+	"\"\\ud83d\\ude00\"", "\"\\uD83D\\uDE00x\"", "\"\\ud83d\\u0041\"", "\"\\udc00\\ud800\"", "\"\\u00e9\\u20ac\\uFFFF\"", "\"a\\/b\\\\c\\\\\"d\\b\\f\\n\\r\\t\"", "{\"k\\u0041\":[1,2.5e-3,{\"\\n\":null}], \"k2\" : \"\\ud800\"}", "\"\\u12G4\"", "\"\\ud83d\\ude0\"", "[ 1 , 2 ]", "{ \"a\" : 1 , \"b\" : [ ] }",
 	`null`, `true`, `false`, `0`, `-0`, `1.0`, `1e5`, `1E5`, `"x"`, `[]`, `{}`, ` [ ] `, "\t{ }\n", `[1,2]`, `{"a":1,"a":2}`,
 	`{"b":1,"a":{"c":[null]}}`, `"😀"`, `"\ud83d"`, `"\ude00"`, `"\ud83d😀"`, `"éé"`, "\"\xff\"", "\"\xed\xa0\x80\"",
 	"\"\xc0\x80\"", "\"a\x7fb\"", `"\/"`, `"\'"`, `"\x"`, `"\u12"`, `"\u12g4"`, "\"\n\"", `01`, `-`, `-a`, `1.`, `.1`, `1e`, `1e+`, `1.2.3`, `1ee5`, `+1`,
@@ -1171,13 +1174,13 @@ func main() {
 		checkBytes([]byte(t), true, "corpus")
 	}
 	rng := lib.NewRNG(f.Seed)
-	nVal := f.Scale(20000, 1500000)
+	nVal := f.Scale(40000, 1200000)
 	for i := 0; i < nVal; i++ {
 		r := rng.Fork()
 		o := genOpts{floats: true, invalidUTF8: i%10 == 9}
 		checkValue(genValue(r, 1+r.Intn(4), o))
 	}
-	nBytes := f.Scale(50000, 3000000)
+	nBytes := f.Scale(100000, 2400000)
 	maxDeep := f.Scale(300, 3000)
 	for i := 0; i < nBytes; i++ {
 		r := rng.Fork()
@@ -1197,7 +1200,7 @@ func main() {
 		}
 	}
 	flushAll()
-	nMod := f.Scale(1500, 40000)
+	nMod := f.Scale(3000, 40000)
 	for i := 0; i < nMod; i++ {
 		r := rng.Fork()
 		var inp []byte
